@@ -196,6 +196,7 @@ func (g *G) stmt(c *gctx) []*N {
 			add(2, func() []*N { return g.selfName(c) })
 			add(3, func() []*N { return g.closureFactory(c) })
 			add(3, func() []*N { return g.nestedCallArgs(c) })
+			add(3, func() []*N { return g.lateShadow(c) })
 		}
 	}
 	if len(c.fns) > 0 {
@@ -1097,6 +1098,44 @@ func (g *G) scopeCross(c *gctx) []*N {
 	}
 	g.feat("scope_cross")
 	return append(out, after...)
+}
+
+// lateShadow: a closure made inside a nested block of a function assigns a pool name; it is called,
+// then the function declares that name itself (a binding BETWEEN the closure's scope and the outer
+// one), then the closure is called again: every assignment goes to the binding that is nearest at the
+// time it runs, however the name resolved before.
+func (g *G) lateShadow(c *gctx) []*N {
+	g.feat("assignment_target_shadowed_between_two_calls_of_a_closure")
+	g.nextFn++
+	fn := fmt.Sprintf("ls%d", g.nextFn)
+	x := g.name()
+	setter := &N{K: "fn", Ps: []string{"v"}, Ss: [][]*N{{{K: "let", Ps: []string{x}, Ns: []*N{Id("v")}}, {K: "ret", Ns: []*N{Id(x)}}}}}
+	var mk []*N
+	switch g.n(0, 3, "lsnest") {
+	case 0:
+		mk = []*N{{K: "if", Ns: []*N{{K: "true"}}, Ss: [][]*N{{{K: "let", Ps: []string{"set"}, Ns: []*N{setter}}}}}}
+	case 1:
+		mk = []*N{{K: "forin", Ps: []string{"it"}, Ns: []*N{{K: "list", Ns: []*N{Int(1)}}}, Ss: [][]*N{{{K: "let", Ps: []string{"set"}, Ns: []*N{setter}}}}}}
+	case 2:
+		mk = []*N{{K: "switch", Ns: []*N{Int(1), {K: "case", Ns: []*N{Int(1)}, Ss: [][]*N{{{K: "let", Ps: []string{"set"}, Ns: []*N{setter}}}}}}}}
+	default:
+		mk = []*N{{K: "let", Ps: []string{"set"}, Ns: []*N{setter}}}
+	}
+	body := []*N{{K: "var", Ps: []string{"set"}, Ns: []*N{{K: "nil"}}}}
+	body = append(body, mk...)
+	calls := g.n(1, 2, "lscalls")
+	for i := 0; i < calls; i++ {
+		body = append(body, &N{K: "expr", Ns: []*N{P1(g.id(), Call("set", g.val()))}})
+	}
+	body = append(body, &N{K: "var", Ps: []string{x}, Ns: []*N{g.val()}})
+	body = append(body, &N{K: "expr", Ns: []*N{P1(g.id(), Call("set", g.val()))}})
+	body = append(body, &N{K: "expr", Ns: []*N{P1(g.id(), Id(x))}})
+	body = append(body, &N{K: "ret", Ns: []*N{Id(x)}})
+	return []*N{
+		{K: "expr", Ns: []*N{{K: "fn", S: fn, Ss: [][]*N{body}}}},
+		{K: "expr", Ns: []*N{P1(g.id(), Call(fn))}},
+		{K: "expr", Ns: []*N{P1(g.id(), &N{K: "coal", Ns: []*N{Id(x), Str("undef")}})}},
+	}
 }
 
 // selfName: a named function whose body rebinds, or calls through, its own name.
